@@ -177,6 +177,16 @@ class _Gen:
                 parts.append(["sig", c[0]] if (c[1] == 0 and c[2] == cw) else ["slice", ["sig", c[0]], c[1], c[2]])
             r.shuffle(parts)
             t = ["cat", parts]
+        elif k < 0.86 and not whole and lo == 0 and n >= 2 and self.o.get("partial_part") and r.random() < 0.3:
+            # a part select applied to the *whole* signal whose reachable bits all lie inside this chunk: the rest of the signal
+            # belongs to another driver and must be left alone
+            obits = 1
+            stride = 1
+            width = r.randint(1, n - 1)
+            if (3 * stride + width) <= n and r.random() < 0.5:
+                obits = 2
+            off = self.explicit_unsigned(readable, maxw=obits)
+            t = ["part", ["sig", si], off, width, stride]
         elif k < 0.86 and whole and w > 0:
             width = r.randint(0, min(4, w + 1))
             stride = r.choice([1, width]) if width else 1
